@@ -22,6 +22,9 @@ func (ex *Exec) call(fr *Frame, st *State, instr ssa.Instruction, c *ssa.CallCom
 	if c.IsInvoke() {
 		recv := args[0].(Sc).T
 		fr.mustHold(st, "nil-iface", not(eq(recv, nilIface())), p)
+		if ex.rg != nil {
+			ex.rg.access(st, recv, c.Method.Name(), p)
+		}
 		fc := ex.ifaceContract(c)
 		if fc == nil {
 			return ex.unmodelledCall(fr, st, c, args, ifaceMethodName(c), p), st
